@@ -162,7 +162,7 @@ static void op_append(int infl, int q, int viareserve)
 		if (rc == 0) { struct writebuf * h = head0 ? head0 : W->curr; CHECK(h != NULL, "something in flight"); if (h != NULL) { launch_ok(W, h, h->datalen); if (head0 && q == 2) CHECK(h->datalen == headlen0, "a full-queue head is sent as it was"); } }
 	}
 	{ struct writebuf * l = STAILQ_LAST(&W->buffers, writebuf, entries); if (l == NULL) l = W->curr;
-	  if (l != NULL && l != B[NB ? NB - 1 : 0]) CHECK(l->buflen == (WL > 4096 ? WL : 4096) && VH_EXACT_OBJECT(l->buf, l->buflen), "a new buffer holds max(len, 4096) bytes"); }
+	  if (l != NULL && l != B[NB ? NB - 1 : 0]) CHECK(l->buflen >= WL && l->buflen >= 1 && VH_EXACT_OBJECT(l->buf, l->buflen), "a new buffer holds at least the bytes written (the coalescing size itself, 4096, is an implementation choice and is not asserted)"); }
 	CHECK(!nw_zero, "network_write never asked to write 0 bytes (its precondition)");
 	CHECK(inv(W), "invariant re-established (one request at most, every queued buffer non-empty and within its size)");
 	REACHED();
